@@ -1,9 +1,38 @@
 //! mc-merkle: serves C09 (see /verif/DESIGN.md §4)
+#![allow(unexpected_cfgs)]
+
 mod c09;
+mod c09_agg;
+mod c09_map;
+mod c09_mk;
+mod c09_stm;
+
+// ---- source inclusion of the STM signer-registration Merkle tree -------------------------------
+// `mithril-stm` keeps `membership_commitment` private, so the working-tree files are compiled into
+// this crate as they are.  They refer to four names through `crate::`; the shim below supplies them
+// from the public API of the real crate (and `codec.rs` is itself included from the working tree).
+#[allow(unused_imports)]
+pub(crate) use mithril_stm::{Stake, StmResult, VerificationKeyForConcatenation};
+
+#[allow(dead_code, unused_imports)]
+#[path = "/repo/mithril-stm/src/codec.rs"]
+pub(crate) mod codec;
+
+#[allow(dead_code, unused_imports, clippy::all)]
+#[path = "/repo/mithril-stm/src/membership_commitment/merkle_tree/mod.rs"]
+pub(crate) mod stm_merkle_tree;
 
 fn main() {
     let ctx = mc_core::Ctx::from_args();
     mc_core::quiet_panics();
+    if std::env::var("C09_DEBUG_PANICS").is_ok() {
+        std::panic::set_hook(Box::new(|info| {
+            let loc = info.location().map(|l| format!("{}:{}", l.file(), l.line())).unwrap_or_default();
+            if loc.contains("mc-merkle/src") || loc.contains("mc-core") {
+                eprintln!("harness panic at {loc}: {info}");
+            }
+        }));
+    }
     match ctx.property.as_str() {
         "C09" => c09::run(&ctx),
         other => {
